@@ -927,6 +927,13 @@ impl ActTask for Step {
 //@@ end
 //@@ extract file=acts/src/scheduler/process/task/step.rs in="impl ActTask for Step" item="fn next" name=Step::next props=C02,C03,C04,C01
 //@@ opt traitpost
+//@@ spec
+        ensures
+            //# D5-a-skipped-step-hands-on-to-its-successor-and-touches-nothing-else [C01,C04]
+            ret is Ok && old(h).st(old(h).cur) is Skipped && n_next(old(h).links_rev, *old(h).tasks[old(h).cur].node) is Some
+                ==> ret->Ok_0 && final(h).queue.len() == old(h).queue.len() + 1 && forall|x: Tid| #[trigger] old(h).has(x) ==> final(h).tasks[x] == old(h).tasks[x],
+            //# D5-a-step-that-is-neither-running-nor-skipped-schedules-nothing [C04]
+            !(old(h).st(old(h).cur) is Running) && !(old(h).st(old(h).cur) is Skipped) ==> *final(h) == *old(h) && ret == Ok::<bool, ActError>(false),
 //@@ loop 1
         invariant
             //# count-bound
